@@ -6,13 +6,16 @@ sys.path.insert(0, os.path.dirname(__file__))
 import mutmatrix
 os.makedirs('/tmp/mut/results', exist_ok=True)
 args = sys.argv[1:]
+root = '/tmp/mut'; prefix = ''
+if '--round2' in args:
+    root = '/tmp/mut2'; prefix = 'r2_'
 own_only = '--own' in args  # phase 1: only the check of the property the change was written against
 only = [a for a in args if not a.startswith('--')]  # optional list of property ids
-for meta in sorted(glob.glob('/tmp/mut/C*/out/m[0-9].json')):
+for meta in sorted(glob.glob(root + '/C*/out/m[0-9].json')):
     d = os.path.dirname(meta); n = os.path.basename(meta)[1:-5]
     prop = d.split('/')[3]
     if only and prop not in only: continue
-    out = f'/tmp/mut/results/{prop}_m{n}.json'
+    out = f'/tmp/mut/results/{prefix}{prop}_m{n}.json'
     old = json.load(open(out)) if os.path.exists(out) else None
     if old and (own_only or len(old.get('matrix', {})) >= 20): continue
     if old:
